@@ -213,6 +213,10 @@ impl<const H: usize> Reader<H> {
         let length_with_flag = u32::from_le_bytes(length_bytes);
         let is_compressed = length_with_flag & COMPRESSION_FLAG != 0;
         let payload_len = (length_with_flag & LENGTH_MASK) as usize; // H + data_len
+        if payload_len < H {
+            // Every record carries its H-byte header: a shorter payload means a damaged length word
+            return Err(ReadError::Crc32cMismatch { offset });
+        }
 
         let crc = u32::from_le_bytes(
             record_header_buf[LEN_SIZE..LEN_SIZE + CRC32C_SIZE]
@@ -328,6 +332,10 @@ impl<const H: usize> Reader<H> {
         let length_with_flag = u32::from_le_bytes(length_bytes);
         let is_compressed = length_with_flag & COMPRESSION_FLAG != 0;
         let payload_len = (length_with_flag & LENGTH_MASK) as usize;
+        if payload_len < H {
+            // Every record carries its H-byte header: a shorter payload means a damaged length word
+            return Err(ReadError::Crc32cMismatch { offset });
+        }
         let crc = u32::from_le_bytes(
             record_header_buf[LEN_SIZE..LEN_SIZE + CRC32C_SIZE]
                 .try_into()
